@@ -15,7 +15,8 @@ Local Open Scope string_scope.
 
 Record run_obs := {
   r_entry : N;                          (* 0 NewT(sentinels).With(...)   1 (&T{}).With(...)   2 shoot.NewWith(...) *)
-  r_fields : list ident;                (* the option sequence, by field; option j carries sentinel 100+j *)
+  r_fields : list ident;                (* the option sequence, by field; option j carries sentinel 100+j ... *)
+  r_zero : list bool;                   (* ... unless flag j is set: then it carries the zero value (nil) of the field's type *)
   r_opttoks : list string;              (* token of the value given to option j *)
   r_panic : bool;                       (* the run panicked (nil pointer dereference) *)
   r_before : list (path * string);      (* leaf tokens of the start value *)
@@ -46,10 +47,10 @@ Definition otok (c : ocase) (r : run_obs) (p : path) (x : res val) : string :=
   | Stuck => "<stuck>"
   end.
 
-Fixpoint opts_of (fs : list ident) (j : nat) : list optv :=
+Fixpoint opts_of (fs : list ident) (zs : list bool) (j : nat) : list optv :=
   match fs with
   | [] => []
-  | f :: r => OptV f (VSent (100 + j)) :: opts_of r (S j)
+  | f :: r => OptV f (if hd false zs then VZero else VSent (100 + j)) :: opts_of r (tl zs) (S j)
   end.
 
 (* ---------------------------------------------------------------- the model *)
@@ -60,7 +61,7 @@ Definition start_value (c : ocase) (sd : sdecl) (nd : new_data) (entry : N) : re
   else Ok (VPtr (zero_struct (oc_pkg c) (oc_fuel c) (self_inst sd))).
 
 Definition model_run (c : ocase) (sd : sdecl) (nd : new_data) (od : opt_data) (r : run_obs) : res val :=
-  let opts := opts_of (r_fields r) 0 in
+  let opts := opts_of (r_fields r) (r_zero r) 0 in
   if N.eqb (r_entry r) 2 then new_with_real (oc_pkg c) (oc_flags c) (oc_fuel c) sd opts
   else bind (start_value c sd nd (r_entry r)) (fun v => with_ (oc_pkg c) (oc_fuel c) sd od v opts).
 
